@@ -12,47 +12,55 @@ def seg (p : Path) : Path := if p = [] then [[]] else p
 theorem seg_ne_nil (p : Path) : seg p ≠ [] := by
   unfold seg; split <;> simp_all
 
-theorem joinSlash_seg (p : Path) : joinSlash (seg p) = joinSlash p := by
-  unfold seg; split
-  · next h => subst h; rfl
-  · rfl
+theorem seg_of_ne_nil {p : Path} (h : p ≠ []) : seg p = p := by simp [seg, h]
+
+theorem hrefSegs_nil : hrefSegs [] = [] := rfl
+
+theorem hrefSegs_cons (c : Str) (cs : Path) : hrefSegs (c :: cs) = 47 :: (escStr c ++ hrefSegs cs) := by
+  simp [hrefSegs]
+
+theorem hrefSegs_append (a b : Path) : hrefSegs (a ++ b) = hrefSegs a ++ hrefSegs b := by
+  simp [hrefSegs]
 
 theorem joinSlash_cons_cons (c d : Str) (rest : Path) :
     joinSlash (c :: d :: rest) = c ++ 47 :: joinSlash (d :: rest) := rfl
 
-theorem joinSlash_append {a b : Path} (ha : a ≠ []) (hb : b ≠ []) :
-    joinSlash (a ++ b) = joinSlash a ++ 47 :: joinSlash b := by
-  induction a with
-  | nil => exact absurd rfl ha
-  | cons c a ih =>
-    cases a with
-    | nil =>
-      cases b with
-      | nil => exact absurd rfl hb
-      | cons d b => simp [joinSlash]
-    | cons d a =>
+/-- `"/" + "/".join(quote(c) for c in path)` is `"".join("/" + quote(c) for c in path)` for a
+non-empty path -/
+theorem slash_joinSlash_map {p : Path} (hp : p ≠ []) :
+    47 :: joinSlash (p.map escStr) = hrefSegs p := by
+  induction p with
+  | nil => exact absurd rfl hp
+  | cons c p ih =>
+    cases p with
+    | nil => simp [joinSlash, hrefSegs]
+    | cons d p =>
       have := ih (by simp)
-      simp only [List.cons_append] at this ⊢
-      rw [joinSlash_cons_cons, this, joinSlash_cons_cons]
-      simp
+      simp only [List.map_cons] at this ⊢
+      rw [joinSlash_cons_cons, hrefSegs_cons, ← this]
+
+/-- the href the code builds for a resource registered at `p` -/
+theorem resHref_eq (p : Path) : 47 :: joinSlash (p.map escStr) = hrefSegs (seg p) := by
+  by_cases hp : p = []
+  · subst hp; simp [seg, joinSlash, hrefSegs, escStr]
+  · rw [seg_of_ne_nil hp, slash_joinSlash_map hp]
 
 /-- the href the code builds for a link below a sub-site is the href of the concatenated
 segments -/
-theorem prefixLink_href (k : Path) {fp : Path} (hfp : fp ≠ []) (attrs : List (Str × Option Str)) :
-    prefixLink k ⟨47 :: joinSlash fp, attrs⟩ = ⟨47 :: joinSlash (seg k ++ fp), attrs⟩ := by
-  simp only [prefixLink, joinSlash_append (seg_ne_nil k) hfp, joinSlash_seg]
-
-theorem seg_of_ne_nil {p : Path} (h : p ≠ []) : seg p = p := by simp [seg, h]
+theorem prefixLink_href (k fp : Path) (attrs : List (Str × Option Str)) :
+    prefixLink k ⟨hrefSegs fp, attrs⟩ = ⟨hrefSegs (k ++ fp), attrs⟩ := by
+  simp only [prefixLink, hrefSegs_append]
 
 -- listing ------------------------------------------------------------------------------------
 
 theorem mem_resLinks {l : Link} {rs : List (Path × Res)} :
-    l ∈ resLinks rs ↔ ∃ q r, (q, r) ∈ rs ∧ r.hidden = false ∧ l = ⟨47 :: joinSlash q, r.attrs⟩ := by
+    l ∈ resLinks rs ↔ ∃ q r, (q, r) ∈ rs ∧ r.hidden = false ∧ l = ⟨hrefSegs (seg q), r.attrs⟩ := by
   induction rs with
   | nil => simp [resLinks]
   | cons e rs ih =>
     obtain ⟨q, r⟩ := e
     unfold resLinks
+    rw [resHref_eq]
     by_cases hh : r.hidden = true
     · simp only [hh, ↓reduceIte, ih, List.mem_cons, Prod.mk.injEq]
       constructor
@@ -236,5 +244,201 @@ theorem splitEq_none {q : Str} (h : splitEq q = none) : 61 ∉ q := by
     · simp only [hc, ↓reduceIte, Option.map_eq_none_iff] at h
       simp only [List.mem_cons, not_or]
       exact ⟨fun e => hc e.symm, ih h⟩
+
+-- several filters ---------------------------------------------------------------------------
+
+theorem applyFilters_nil (ls : List Link) : applyFilters [] ls = ls := rfl
+
+theorem applyFilters_cons (kv : Str × Str) (fs : List (Str × Str)) (ls : List Link) :
+    applyFilters (kv :: fs) ls = (applyFilters fs ls).filter (linkMatches kv.1 kv.2) := rfl
+
+/-- applying the filter functions one after the other keeps exactly the links every one of them
+accepts -/
+theorem applyFilters_eq_filter_all (fs : List (Str × Str)) (ls : List Link) :
+    applyFilters fs ls = ls.filter (fun l => fs.all (fun kv => linkMatches kv.1 kv.2 l)) := by
+  induction fs with
+  | nil =>
+    rw [applyFilters_nil]
+    exact (List.filter_eq_self.mpr (fun _ _ => rfl)).symm
+  | cons kv fs ih =>
+    rw [applyFilters_cons, ih, List.filter_filter]
+    apply List.filter_congr
+    intro l _
+    simp only [List.all_cons]
+
+/-- what `render_get` filters: the generator's links plus the optional impl-info link -/
+def wkcAll (links : List Link) (implInfo : Option Str) : List Link :=
+  links ++ (match implInfo with | some u => [implInfoLink u] | none => [])
+
+theorem wkcRender_eq (links : List Link) (implInfo : Option Str) (queries : List Str) :
+    wkcRender links implInfo queries =
+      applyFilters (queries.filterMap splitEq) (wkcAll links implInfo) := by
+  cases implInfo <;> rfl
+
+-- reading an href back (RFC 3986 §3.3 path segments, §2.1 percent-encoding) -------------------
+
+/-- every component is a byte string -/
+def PathWf (p : Path) : Prop := ∀ c ∈ p, ∀ b ∈ c, b < 256
+
+/-- value of a hexadecimal digit, either case -/
+def unhex (c : Nat) : Option Nat :=
+  if 48 ≤ c ∧ c ≤ 57 then some (c - 48)
+  else if 65 ≤ c ∧ c ≤ 70 then some (c - 55)
+  else if 97 ≤ c ∧ c ≤ 102 then some (c - 87)
+  else none
+
+/-- percent-decoding of one segment; `none` for a `%` that is not followed by two hex digits -/
+def unescStr : Str → Option Str
+  | [] => some []
+  | c :: rest =>
+    if c = 37 then
+      match rest with
+      | a :: b :: rest' =>
+        match unhex a, unhex b, unescStr rest' with
+        | some x, some y, some r => some ((16 * x + y) :: r)
+        | _, _, _ => none
+      | _ => none
+    else (unescStr rest).map (c :: ·)
+
+def unescPath : List Str → Option Path
+  | [] => some []
+  | c :: cs =>
+    match unescStr c, unescPath cs with
+    | some x, some xs => some (x :: xs)
+    | _, _ => none
+
+/-- the segments of a path-absolute reference: what follows the leading `/`, split at every `/`,
+each piece percent-decoded (`"/"` alone has the single empty segment) -/
+def parseHref : Str → Option Path
+  | [] => none
+  | c :: rest => if c = 47 then unescPath (splitOn 47 rest) else none
+
+theorem unhex_pctHex {n : Nat} (h : n < 16) : unhex (pctHex n) = some n := by
+  unfold pctHex unhex
+  by_cases h10 : n < 10
+  · simp only [h10, ↓reduceIte]
+    have h1 : 48 ≤ 48 + n ∧ 48 + n ≤ 57 := by omega
+    simp only [h1, and_self, ↓reduceIte, Option.some.injEq]; omega
+  · simp only [h10, ↓reduceIte]
+    have h1 : ¬ (48 ≤ 55 + n ∧ 55 + n ≤ 57) := by omega
+    have h2 : 65 ≤ 55 + n ∧ 55 + n ≤ 70 := by omega
+    simp only [h1, h2, and_self, ↓reduceIte, Option.some.injEq]; omega
+
+theorem hrefSafe_ne_pct {c : Nat} (h : hrefSafe c = true) : c ≠ 37 := by
+  intro e; subst e; revert h; decide
+
+theorem hrefSafe_ne_slash {c : Nat} (h : hrefSafe c = true) : c ≠ 47 := by
+  intro e; subst e; revert h; decide
+
+theorem pctHex_ne_slash (n : Nat) : pctHex n ≠ 47 := by
+  unfold pctHex; split <;> omega
+
+theorem escByte_no_slash (c : Nat) : 47 ∉ escByte c := by
+  unfold escByte
+  by_cases h : hrefSafe c = true
+  · simp only [h, ↓reduceIte, List.mem_singleton]
+    exact fun e => hrefSafe_ne_slash h e.symm
+  · simp only [h, Bool.false_eq_true, ↓reduceIte, List.mem_cons, List.not_mem_nil, or_false,
+      not_or]
+    exact ⟨by omega, fun e => pctHex_ne_slash _ e.symm, fun e => pctHex_ne_slash _ e.symm⟩
+
+theorem escStr_no_slash (s : Str) : 47 ∉ escStr s := by
+  unfold escStr
+  simp only [List.mem_flatMap, not_exists, not_and]
+  exact fun c _ => escByte_no_slash c
+
+theorem escStr_cons (c : Nat) (s : Str) : escStr (c :: s) = escByte c ++ escStr s := by
+  simp [escStr]
+
+theorem unescStr_cons_of_ne {c : Nat} (h : c ≠ 37) (rest : Str) :
+    unescStr (c :: rest) = (unescStr rest).map (c :: ·) := by
+  rw [unescStr.eq_def]
+  simp only [h, ↓reduceIte]
+
+theorem unescStr_pct (a b : Nat) (rest : Str) :
+    unescStr (37 :: a :: b :: rest) =
+      match unhex a, unhex b, unescStr rest with
+      | some x, some y, some r => some ((16 * x + y) :: r)
+      | _, _, _ => none := by
+  rw [unescStr.eq_def]
+  simp only [↓reduceIte]
+
+theorem unescStr_escByte_append {b : Nat} (hb : b < 256) (t : Str) :
+    unescStr (escByte b ++ t) = (unescStr t).map (b :: ·) := by
+  unfold escByte
+  by_cases h : hrefSafe b = true
+  · simp only [h, ↓reduceIte, List.singleton_append]
+    exact unescStr_cons_of_ne (hrefSafe_ne_pct h) t
+  · simp only [h, Bool.false_eq_true, ↓reduceIte, List.cons_append, List.nil_append]
+    rw [unescStr_pct]
+    simp only [unhex_pctHex (show b / 16 < 16 by omega),
+      unhex_pctHex (show b % 16 < 16 by omega)]
+    cases unescStr t with
+    | none => rfl
+    | some r =>
+      simp only [Option.map_some, Option.some.injEq, List.cons.injEq, and_true]
+      omega
+
+theorem unescStr_escStr {s : Str} (hs : ∀ b ∈ s, b < 256) : unescStr (escStr s) = some s := by
+  induction s with
+  | nil => rfl
+  | cons c s ih =>
+    rw [escStr_cons, unescStr_escByte_append (hs c List.mem_cons_self),
+      ih (fun b hb => hs b (List.mem_cons_of_mem _ hb))]
+    rfl
+
+theorem unescPath_map_escStr {p : Path} (hp : PathWf p) : unescPath (p.map escStr) = some p := by
+  induction p with
+  | nil => rfl
+  | cons c p ih =>
+    simp only [List.map_cons, unescPath, unescStr_escStr (hp c List.mem_cons_self),
+      ih (fun d hd => hp d (List.mem_cons_of_mem _ hd))]
+
+/-- splitting what follows the first `/` of an href at `/` gives back the escaped components -/
+theorem splitOn_hrefSegs (c : Str) (cs : Path) :
+    splitOn 47 (escStr c ++ hrefSegs cs) = escStr c :: cs.map escStr := by
+  induction cs generalizing c with
+  | nil => simp [hrefSegs_nil, splitOn_no_sep (escStr_no_slash c)]
+  | cons d ds ih =>
+    rw [hrefSegs_cons, splitOn_first _ (escStr_no_slash c), ih d]
+    rfl
+
+theorem parseHref_hrefSegs {p : Path} (hne : p ≠ []) (hp : PathWf p) :
+    parseHref (hrefSegs p) = some p := by
+  cases p with
+  | nil => exact absurd rfl hne
+  | cons c cs =>
+    rw [hrefSegs_cons, parseHref]
+    simp only [↓reduceIte]
+    rw [splitOn_hrefSegs]
+    exact unescPath_map_escStr (p := c :: cs) hp
+
+theorem pctHex_safe {n : Nat} (h : n < 16) : hrefSafe (pctHex n) = true := by
+  have : n = 0 ∨ n = 1 ∨ n = 2 ∨ n = 3 ∨ n = 4 ∨ n = 5 ∨ n = 6 ∨ n = 7 ∨ n = 8 ∨ n = 9 ∨
+      n = 10 ∨ n = 11 ∨ n = 12 ∨ n = 13 ∨ n = 14 ∨ n = 15 := by omega
+  rcases this with h | h | h | h | h | h | h | h | h | h | h | h | h | h | h | h <;>
+    subst h <;> decide
+
+/-- the characters of an href: `/`, `%`, and what `_quote_for_href` leaves alone -/
+theorem mem_hrefSegs_char {p : Path} (hp : PathWf p) {b : Nat} (hb : b ∈ hrefSegs p) :
+    b = 47 ∨ b = 37 ∨ hrefSafe b = true := by
+  unfold hrefSegs at hb
+  simp only [List.mem_flatMap, List.mem_cons] at hb
+  obtain ⟨c, hc, hb | hb⟩ := hb
+  · exact Or.inl hb
+  · unfold escStr at hb
+    simp only [List.mem_flatMap] at hb
+    obtain ⟨x, hx, hbx⟩ := hb
+    have hx256 := hp c hc x hx
+    unfold escByte at hbx
+    by_cases h : hrefSafe x = true
+    · simp only [h, ↓reduceIte, List.mem_singleton] at hbx
+      subst hbx; exact Or.inr (Or.inr h)
+    · simp only [h, Bool.false_eq_true, ↓reduceIte, List.mem_cons, List.not_mem_nil,
+        or_false] at hbx
+      rcases hbx with rfl | rfl | rfl
+      · exact Or.inr (Or.inl rfl)
+      · exact Or.inr (Or.inr (pctHex_safe (by omega)))
+      · exact Or.inr (Or.inr (pctHex_safe (by omega)))
 
 end Aiocoap.Apps
